@@ -5,6 +5,7 @@ import AkVerif.Model.Sticky
 import AkVerif.Model.StickyAlg
 import Driver.WireIO
 import Driver.ConnIO
+import Driver.ConsumeIO
 import Driver.ScramIO
 /-!
 Line-protocol driver: one operation per line on stdin, one canonical line per operation on stdout.
@@ -22,6 +23,8 @@ def dispatch (toks : List String) : Option String :=
   | "c08" :: rest => Iso.handle rest
   | "c11" :: rest => WireIO.handle rest
   | "c12" :: rest => ConnIO.handle rest
+  | "c03" :: rest => ConsumeIO.handle rest
+  | "c13" :: rest => ConsumeIO.handle13 rest
   | "c18" :: rest => ScramIO.handle rest
   | _ => none
 
